@@ -4,14 +4,14 @@
 # usage: mutant_matrix.sh <outfile.tsv> <patchdir-or-list...>   env CHECKS="C01 C02 ..."
 set -u
 OUT="$1"; shift
-MM=/tmp/mm
+MM=${MM:-/tmp/mm}
 CHECKS=${CHECKS:-"C01 C02 C03 C04 C05 C06 C07 C08 C09 C10 C11 C12 C13 C14 C15 C16 C17 C18"}
 export CARGO_NET_OFFLINE=true
 rm -rf $MM/verif; mkdir -p $MM/verif
 if [ ! -d $MM/repo ]; then git -C /repo worktree add --detach $MM/repo HEAD >/dev/null 2>&1 || exit 2; fi
 git -C $MM/repo checkout -q --detach "$(git -C /repo rev-parse HEAD)" ; git -C $MM/repo checkout -q -- .
 rsync -a --exclude target --exclude .git /verif/sim $MM/verif/ ; cp -r /verif/spec /verif/known_findings.json $MM/verif/
-sed -i "s#path = \"/repo\"#path = \"$MM/repo\"#" $MM/verif/sim/Cargo.toml
+find $MM/verif/sim -name Cargo.toml -not -path "*/target/*" -exec sed -i "s#path = \"/repo\"#path = \"$MM/repo\"#" {} +
 mkdir -p $MM/target
 export CARGO_TARGET_DIR=$MM/target
 BIN=$MM/target/release/opaque-sim
